@@ -87,6 +87,7 @@ type c16World struct {
 	connIDs  chan string
 	ops      atomic.Int64
 	liveN    atomic.Int64 // clients not yet closed; closes stop when only two are left
+	strategy string
 }
 
 func (x *c16World) now() int64 { return int64(time.Since(x.base)) }
@@ -173,7 +174,10 @@ func c16Round(w *mon.W, round int) {
 	cfg.MaxConnectionsPerHub = x.maxConn
 	cfg.MaxConnectionsPerRoom = x.maxRoom
 	cfg.MessageQueueSize = []int{4, 64, 256}[rng.Intn(3)]
-	x.cfgDesc = fmt.Sprintf("MaxConnectionsPerHub=%d MaxConnectionsPerRoom=%d MessageQueueSize=%d", x.maxConn, x.maxRoom, cfg.MessageQueueSize)
+	cfg.MessageQueueStrategy = []websocket.QueueStrategy{websocket.QueueStrategyDropOldest, websocket.QueueStrategyDropNewest, websocket.QueueStrategyBlock}[round%3]
+	cfg.WriteWait = 3 * time.Second
+	x.strategy = string(cfg.MessageQueueStrategy)
+	x.cfgDesc = fmt.Sprintf("MaxConnectionsPerHub=%d MaxConnectionsPerRoom=%d MessageQueueSize=%d MessageQueueStrategy=%s WriteWait=3s", x.maxConn, x.maxRoom, cfg.MessageQueueSize, cfg.MessageQueueStrategy)
 	x.srv = websocket.NewServer(cfg)
 	x.hub = x.srv.GetHub()
 	x.srv.OnConnect(func(c *websocket.Connection) error {
@@ -388,48 +392,13 @@ func c16Round(w *mon.W, round int) {
 			}
 			wg.Wait()
 		})
-		// quiescence: a marker broadcast must reach every live client (bounded progress)
-		marker := fmt.Sprintf("marker-%d-%d", round, phase)
-		var live []*c16Client
-		for _, c := range x.clients {
-			if !c.closed.Load() {
-				live = append(live, c)
-			}
-		}
-		w.Watch(fmt.Sprintf("round %d phase %d: hub progress (marker broadcast) (%s)", round, phase, x.cfgDesc), 30*time.Second, func() {
-			deadline := time.Now().Add(25 * time.Second)
-			for attempt := 0; ; attempt++ {
-				x.hub.Broadcast([]byte(marker))
-				time.Sleep(30 * time.Millisecond)
-				all := true
-				for _, c := range live {
-					got := false
-					c.mu.Lock()
-					for _, f := range c.frames {
-						if f.msg == marker {
-							got = true
-						}
-					}
-					c.mu.Unlock()
-					select {
-					case <-c.done: // the server dropped it (slow consumer): legal
-						got = true
-					default:
-					}
-					if !got {
-						all = false
-					}
-				}
-				if all || time.Now().After(deadline) {
-					if !all {
-						time.Sleep(20 * time.Second) // let the watchdog take its dumps
-					}
-					return
-				}
-			}
-		})
+		x.quiesce(fmt.Sprintf("phase %d", phase))
 		time.Sleep(50 * time.Millisecond)
 		x.invariants(phase, rooms, wit)
+	}
+	x.churn(rng, wit)
+	if round%3 != 1 {
+		x.stalled(rng, wit)
 	}
 	x.deliveries(wit)
 	w.Count("operations", int(x.ops.Load()))
@@ -437,6 +406,228 @@ func c16Round(w *mon.W, round int) {
 	if round%50 == 0 {
 		w.Sample(map[string]interface{}{"config": x.cfgDesc, "clients": len(x.clients), "rooms": rooms, "operations": x.ops.Load()})
 	}
+}
+
+// quiesce: a marker broadcast must reach every live client (bounded progress of the hub loop).
+func (x *c16World) quiesce(label string) {
+	w := x.w
+	marker := fmt.Sprintf("marker-%d-%s-%d", x.round, strings.ReplaceAll(label, " ", "_"), x.nextMsg.Add(1))
+	var live []*c16Client
+	for _, c := range x.clients {
+		if !c.closed.Load() {
+			live = append(live, c)
+		}
+	}
+	w.Watch(fmt.Sprintf("round %d %s: hub progress (marker broadcast) (%s)", x.round, label, x.cfgDesc), 30*time.Second, func() {
+		deadline := time.Now().Add(25 * time.Second)
+		for attempt := 0; ; attempt++ {
+			x.hub.Broadcast([]byte(marker))
+			time.Sleep(30 * time.Millisecond)
+			all := true
+			for _, c := range live {
+				got := false
+				c.mu.Lock()
+				for _, f := range c.frames {
+					if f.msg == marker {
+						got = true
+					}
+				}
+				c.mu.Unlock()
+				select {
+				case <-c.done: // the server dropped it (slow consumer): legal
+					got = true
+				default:
+				}
+				if !got {
+					all = false
+				}
+			}
+			if all || time.Now().After(deadline) {
+				if !all {
+					time.Sleep(20 * time.Second) // let the watchdog take its dumps
+				}
+				return
+			}
+		}
+	})
+}
+
+// dialRaw: a client whose frames are not read (a stalled consumer) unless read is set.
+func (x *c16World) dialRaw() (*gws.Conn, *websocket.Connection, error) {
+	url := "ws" + strings.TrimPrefix(x.ts.URL, "http") + "/ws"
+	ws, _, err := gws.DefaultDialer.Dial(url, nil)
+	if err != nil {
+		return nil, nil, err
+	}
+	ws.SetReadDeadline(time.Now().Add(5 * time.Second))
+	_, first, err := ws.ReadMessage()
+	if err != nil || !strings.HasPrefix(string(first), "hello:") {
+		ws.Close()
+		return nil, nil, fmt.Errorf("no hello frame")
+	}
+	ws.SetReadDeadline(time.Time{})
+	sc, ok := x.hub.GetConnection(strings.TrimPrefix(string(first), "hello:"))
+	if !ok {
+		ws.Close()
+		return nil, nil, fmt.Errorf("connection not registered")
+	}
+	return ws, sc, nil
+}
+
+// churn: a JoinRoom issued from another goroutine races with the disconnect of the same
+// connection (client-side close or server-side Close). Whatever the order, once the hub has
+// unregistered the connection neither view may list it as a member.
+func (x *c16World) churn(rng *rand.Rand, wit func(map[string]interface{}) map[string]interface{}) {
+	rm := x.hub.GetRoomManager()
+	if x.hub.GetConnectionCount() >= x.maxConn {
+		return
+	}
+	type churned struct {
+		sc         *websocket.Connection
+		room       string
+		serverSide bool
+	}
+	var pending []churned
+	for k := 0; k < 24; k++ {
+		ws, sc, err := x.dialRaw()
+		if err != nil {
+			x.w.Count("churn_dial_refused", 1)
+			break
+		}
+		go func() { // drain, so that the close handshake completes
+			for {
+				if _, _, err := ws.ReadMessage(); err != nil {
+					return
+				}
+			}
+		}()
+		room := fmt.Sprintf("churn-%d", k)
+		serverSide := rng.Intn(3) == 0
+		spin := rng.Intn(4000)
+		var wg sync.WaitGroup
+		var gate atomic.Bool
+		wg.Add(2)
+		go func() {
+			defer wg.Done()
+			for !gate.Load() {
+			}
+			if serverSide {
+				sc.Close()
+			} else {
+				ws.Close()
+			}
+		}()
+		go func() {
+			defer wg.Done()
+			for !gate.Load() {
+			}
+			for i := 0; i < spin; i++ {
+				_ = gate.Load()
+			}
+			sc.JoinRoom(room)
+		}()
+		gate.Store(true)
+		wg.Wait()
+		ws.Close()
+		// bounded wait until the hub has unregistered the connection
+		gone := false
+		for i := 0; i < 2000; i++ {
+			if _, ok := x.hub.GetConnection(sc.ID); !ok {
+				gone = true
+				break
+			}
+			time.Sleep(time.Millisecond)
+		}
+		x.ops.Add(2)
+		x.w.Count("churn_join_vs_disconnect_races", 1)
+		if !gone {
+			x.w.Inconclusive("C16 churn: the hub did not unregister a closed connection within 2 s")
+			return
+		}
+		pending = append(pending, churned{sc, room, serverSide})
+	}
+	// The hub handles its queue in order: once a marker broadcast issued now has been
+	// delivered, every unregister above has been handled completely.
+	x.quiesce("after churn")
+	for _, p := range pending {
+		room2, exists := rm.GetRoom(p.room)
+		inRoom := exists && room2.Has(p.sc)
+		own := p.sc.IsInRoom(p.room)
+		x.w.Count("membership_views_compared", 1)
+		if inRoom || own {
+			which := "connection-view"
+			if inRoom {
+				which = "room-view"
+				x.w.Count("churn_ghost_members", 1)
+			}
+			x.w.Violate("disconnected-connection-still-in-room:"+which, fmt.Sprintf("a JoinRoom(%s) raced with the disconnect of the same connection (server-side close: %v); after the hub had unregistered it completely, IsInRoom=%v and room.Has=%v (room size %d)", p.room, p.serverSide, own, inRoom, rm.GetRoomSize(p.room)),
+				wit(map[string]interface{}{"scenario": "join racing with disconnect", "room": p.room}))
+			return
+		}
+	}
+}
+
+// stalled: a consumer that stops reading. A Send from another goroutine fills the queue;
+// with the block strategy it waits for room. When the stalled client then disconnects, the
+// waiting sender must come back and the hub must keep serving everybody else.
+func (x *c16World) stalled(rng *rand.Rand, wit func(map[string]interface{}) map[string]interface{}) {
+	if x.hub.GetConnectionCount() >= x.maxConn {
+		return
+	}
+	ws, sc, err := x.dialRaw()
+	if err != nil {
+		return
+	}
+	payload := []byte(strings.Repeat("x", 32*1024))
+	var lastCall atomic.Int64
+	var sent atomic.Int64
+	done := make(chan struct{})
+	stop := make(chan struct{})
+	go func() {
+		defer close(done)
+		for i := 0; i < 4000; i++ {
+			select {
+			case <-stop:
+				return
+			default:
+			}
+			lastCall.Store(time.Now().UnixNano())
+			if err := sc.Send(payload); err != nil {
+				return
+			}
+			lastCall.Store(0)
+			sent.Add(1)
+		}
+	}()
+	// wait until a Send has been waiting for 300 ms (block strategy) or the loop ended
+	blocked := false
+	for i := 0; i < 400; i++ {
+		select {
+		case <-done:
+			i = 400
+		default:
+		}
+		if t := lastCall.Load(); t != 0 && time.Now().UnixNano()-t > int64(300*time.Millisecond) {
+			blocked = true
+			break
+		}
+		time.Sleep(10 * time.Millisecond)
+	}
+	if blocked {
+		x.w.Count("stalled_consumer_sender_was_waiting", 1)
+	}
+	x.w.Count("stalled_consumer_scenarios", 1)
+	close(stop)
+	ws.Close() // the stalled client goes away
+	x.ops.Add(sent.Load())
+	x.w.Watch(fmt.Sprintf("round %d: sender waiting on a stalled consumer that disconnected (%s)", x.round, x.cfgDesc), 25*time.Second, func() {
+		select {
+		case <-done:
+		case <-time.After(22 * time.Second):
+			time.Sleep(20 * time.Second)
+		}
+	})
+	x.quiesce("after stalled consumer")
 }
 
 func (x *c16World) invariants(phase int, rooms []string, wit func(map[string]interface{}) map[string]interface{}) {
